@@ -49,6 +49,7 @@ struct Scenario {
     mem: BTreeMap<u64, u8>,
     code: bool,
     backing: bool,
+    backing_other_endian: bool,
 }
 
 impl C07 {
@@ -125,7 +126,7 @@ impl C07 {
                 mem.insert(a, rng.u64() as u8);
             }
         }
-        Scenario { program: patched, pools, big, init, mem, code, backing: rng.bool() }
+        Scenario { program: patched, pools, big, init, mem, code, backing: rng.bool(), backing_other_endian: rng.chance(1, 3) }
     }
 
     fn run_scenario(&self, ctx: &mut Ctx, sc: &Scenario, tag: &str) {
@@ -142,7 +143,10 @@ impl C07 {
         ctx.trace(|| format!("program {}", pj()));
         // ---- falcon side
         let mut memory: Memory = if sc.backing {
-            let mut b = falcon::memory::backing::Memory::new(endian.clone());
+            // one backing in three has the opposite byte order: the executor's loads must assemble bytes in the
+            // byte order of the memory it was given, whatever the backing's own accessor would do
+            let b_endian = if sc.backing_other_endian { if sc.big { Endian::Little } else { Endian::Big } } else { endian.clone() };
+            let mut b = falcon::memory::backing::Memory::new(b_endian);
             // contiguous runs
             let mut run: Vec<u8> = Vec::new();
             let mut start = None;
@@ -377,7 +381,7 @@ impl C07 {
             ctx.count(&format!("seen.{}", k));
         }
         let end = kinds_seen.iter().find(|k| ["undefined_scalar", "unmapped", "div_zero", "intrinsic", "no_guard", "terminal", "branch_nowhere", "branch_lifted", "address_too_wide", "sort"].contains(k)).cloned().unwrap_or("step_cap");
-        ctx.class(&format!("end={}/{}/{}{}", end, if sc.big {"be"} else {"le"}, if sc.backing {"backed"} else {"plain"}, if kinds_seen.contains(&"branch_resolved") {"/xbranch"} else {""}));
+        ctx.class(&format!("end={}/{}/{}{}", end, if sc.big {"be"} else {"le"}, if sc.backing { if sc.backing_other_endian {"backed_other_endian"} else {"backed"} } else {"plain"}, if kinds_seen.contains(&"branch_resolved") {"/xbranch"} else {""}));
         if ctx.want_sample() && sc.program.functions().len() == 1 {
             ctx.sample(pj());
         }
@@ -407,6 +411,7 @@ impl Check for C07 {
                 mem: BTreeMap::new(),
                 code: false,
                 backing: false,
+                backing_other_endian: false,
             };
             self.run_scenario(ctx, &sc, "single_conditional_edge");
             return;
